@@ -2956,8 +2956,7 @@ Qed.
 (* ================================================================== Part 16: SparseArray reductions along an axis *)
 Lemma Rc_nth k : forall r r', Rv r r' -> Rc (nth k r None) (nth k r' 0).
 Proof.
-  induction k as [|k IH]; intros r r' H; destruct H; cbn; auto; try (split; cbn; auto; reflexivity).
-  now apply IH.
+  induction k as [|k IH]; intros r r' H; destruct H; cbn; auto; try (split; cbn; auto; reflexivity); try (now apply IH).
 Qed.
 Lemma column_rel rows m k : Forall2 Rv rows m -> Forall2 Rc (column None rows k) (column 0 m k).
 Proof. intros H. unfold column. induction H; cbn; constructor; auto. now apply Rc_nth. Qed.
@@ -2965,7 +2964,9 @@ Lemma columns_rel rows m : Forall2 Rv rows m -> Forall2 (Forall2 Rc) (columns No
 Proof.
   intros H. unfold columns.
   assert (V : vsize rows = vsize m) by (destruct H; cbn; auto; now apply Rv_length).
-  rewrite <- V. induction (seq 0 (vsize rows)); cbn; constructor; auto. now apply column_rel.
+  assert (G : forall l, Forall2 (Forall2 Rc) (map (column None rows) l) (map (column 0 m) l)).
+  { intros l. induction l; cbn; constructor; auto. now apply column_rel. }
+  rewrite <- V. apply G.
 Qed.
 Lemma column_length {A} (d : A) rows k : length (column d rows k) = length rows.
 Proof. unfold column. apply map_length. Qed.
@@ -2994,14 +2995,14 @@ Proof.
 Qed.
 Lemma qofnat_nz n : (0 < n)%nat -> ~ qofnat n == 0.
 Proof. intros H E. unfold qofnat, inject_Z, Qeq in E. cbn in E. lia. Qed.
-Lemma line_mean col col' : Forall2 Rc col col' -> col <> [] ->
-  exists q', np_mean col' = Ok q' /\ rrel Rc (div_c (nz (qsum (map dcell col))) (qofnat (length col))) (Ok q').
+Lemma line_mean col col' n : Forall2 Rc col col' -> col <> [] -> length col = n ->
+  exists q', np_mean col' = Ok q' /\ rrel Rc (div_c (nz (qsum (map dcell col))) (qofnat n)) (Ok q').
 Proof.
-  intros H Hne. pose proof (line_sum _ _ H) as S. pose proof (Forall2_length _ _ _ H) as L.
+  intros H Hne Ln. subst n. pose proof (line_sum _ _ H) as Sm. pose proof (Forall2_length _ _ _ H) as L.
   unfold np_mean, len0. rewrite <- L. destruct col as [|x col]; [congruence|]. cbn [length Nat.eqb].
   eexists; split; [reflexivity|].
   assert (N : ~ qofnat (S (length col)) == 0) by (apply qofnat_nz; lia).
-  pose proof (div_c_rel _ _ (qofnat (S (length col))) (qofnat (S (length col))) S ltac:(reflexivity)) as R.
+  pose proof (div_c_rel _ _ (qofnat (S (length col))) (qofnat (S (length col))) Sm ltac:(reflexivity)) as R.
   rewrite qdiv0_eval_nz in R by exact N. exact R.
 Qed.
 (* a family of lines reduced one by one *)
@@ -3016,7 +3017,7 @@ Lemma lines_bool {A A'} (R : A -> A' -> Prop) (f : A -> bool) (g : A' -> bool) l
   (forall x x', R x x' -> f x = g x') -> Forall2 R l l' -> map f l = map g l'.
 Proof. intros H Hl. induction Hl; cbn; auto. f_equal; auto. Qed.
 Lemma Rv_single rows v' : Rv rows v' -> Forall2 Rv (map (fun x => [x]) rows) (map (fun x => [x]) v').
-Proof. intros H. induction H; cbn; constructor; auto. constructor; auto. constructor. Qed.
+Proof. intros H. unfold Rv in *. induction H; cbn; constructor; auto. Qed.
 Lemma Rv_map_nz l l' : Forall2 Qeq l l' -> Rv (map nz l) l'.
 Proof. intros H. induction H; cbn; constructor; auto. now apply Rc_nz. Qed.
 Lemma Rv_single_nz l l' : Forall2 Qeq l l' -> Forall2 Rv (map (fun x => [nz x]) l) (map (fun x => [x]) l').
@@ -3058,7 +3059,7 @@ Proof.
                   rrel Rv (truediv_scalar (map (fun c => nz (qsum (map dcell c))) (columns None rows)) (qofnat (length rows))) (Ok v')).
     { unfold truediv_scalar. rewrite mapM_map. clear -C2.
       induction C2 as [|x x' l l' [[Hx Hn] Hl] Hrest IH]; cbn; [eexists; split; eauto; constructor|].
-      destruct (line_mean x x' Hx Hn) as (q' & -> & Hq). rewrite Hl in Hq.
+      destruct (line_mean x x' (length rows) Hx Hn Hl) as (q' & -> & Hq).
       destruct IH as (v' & -> & Hv). eexists; split; [reflexivity|].
       destruct (div_c _ _); cbn in Hq; try contradiction.
       destruct (mapM _ l); cbn in Hv; try contradiction. cbn. constructor; auto. }
@@ -3072,4 +3073,213 @@ Proof.
     destruct (lines_map (fun c c' => Forall2 Rc c c' /\ c <> []) (fun c => nz (qmin_list (map dcell c))) (np_red_num RMin) _ _
                 (fun x x' Hx => line_min x x' (proj1 Hx) (proj2 Hx)) (Forall2_conj _ _ _ _ C CN)) as (v' & -> & Hv).
     destruct keep; cbn; auto.
+Qed.
+
+(* axis = 1: every reduction of the rows, with and without keepdims *)
+Lemma lines_mapQ {A A'} (R : A -> A' -> Prop) (f : A -> Q) (g : A' -> res Q) l l' :
+  (forall x x', R x x' -> exists q', g x' = Ok q' /\ f x == q') -> Forall2 R l l' ->
+  exists v', mapM g l' = Ok v' /\ Forall2 Qeq (map f l) v'.
+Proof.
+  intros H Hl. induction Hl as [|x x' l l' Hx Hl IH]; cbn; [eexists; split; eauto; constructor|].
+  destruct (H x x' Hx) as (q' & -> & Hq). destruct IH as (v' & -> & Hv). eexists; split; [reflexivity|]. constructor; auto.
+Qed.
+Lemma lines_mapQ2 {A A'} (R : A -> A' -> Prop) (f : A -> res Q) (g : A' -> res Q) l l' :
+  (forall x x', R x x' -> exists q q', f x = Ok q /\ g x' = Ok q' /\ q == q') -> Forall2 R l l' ->
+  exists v v', mapM f l = Ok v /\ mapM g l' = Ok v' /\ Forall2 Qeq v v'.
+Proof.
+  intros H Hl. induction Hl as [|x x' l l' Hx Hl IH]; cbn; [do 2 eexists; repeat split; eauto; constructor|].
+  destruct (H x x' Hx) as (q & q' & -> & -> & Hq). destruct IH as (v & v' & -> & -> & Hv).
+  do 2 eexists; repeat split; eauto.
+Qed.
+Theorem red_axis1_refines r rows m keep : Forall2 Rv rows m -> Forall (fun c => c <> []) rows ->
+  rrel osim2 (out_res (red_arrF false r rows (Some 1%nat) keep)) (np_red2 r m 1 keep).
+Proof.
+  intros H Hn. pose proof (Forall2_conj _ _ _ _ H Hn) as H2. cbn in H2.
+  unfold red_arrF, np_red2, np_lines. cbn [keep_shape].
+  destruct r.
+  - rewrite (lines_bool _ sv_any (np_red_bool RAny) _ _ any_refines H). destruct keep; cbn; reflexivity.
+  - rewrite (lines_bool _ sv_all (np_red_bool RAll) _ _ all_refines H). destruct keep; cbn; reflexivity.
+  - destruct (lines_mapQ Rv sv_sum (np_red_num RSum) _ _
+                (fun x x' Hx => ex_intro _ (np_sum x') (conj eq_refl (sum_refines x x' Hx))) H) as (v' & -> & Hv).
+    destruct keep; cbn; [now apply Rv_single_nz | now apply Rv_map_nz].
+  - destruct (lines_mapQ (fun c c' => Rv c c' /\ c <> [])
+                (fun c => let x := sv_sum c in if qzerob x then 0 else x / qofnat (length c)) (np_red_num RMean) rows m)
+      as (v' & -> & Hv); auto.
+    { intros x x' [Hx Hne]. cbn [np_red_num]. unfold np_mean, len0. rewrite <- (Rv_length _ _ Hx).
+      destruct x as [|c0 x]; [congruence|]. cbn [length Nat.eqb]. eexists; split; [reflexivity|].
+      pose proof (sum_refines _ _ Hx) as S0. unfold np_sum in S0. cbn zeta.
+      destruct (qzerob (sv_sum (c0 :: x))) eqn:Z.
+      - apply qzerob_true in Z. rewrite <- S0, Z. symmetry. apply zero_div.
+      - now rewrite S0. }
+    destruct keep; cbn; [now apply Rv_single_nz | now apply Rv_map_nz].
+  - destruct (lines_mapQ2 (fun c c' => Rv c c' /\ c <> []) sv_max (np_red_num RMax) rows m) as (v & v' & E & -> & Hv); auto.
+    { intros x x' [Hx Hne]. now apply max_refines. }
+    unfold res_all. rewrite mapM_map. rewrite (mapM_ext _ sv_max) by reflexivity. rewrite E.
+    destruct keep; cbn; [now apply Rv_single_nz | now apply Rv_map_nz].
+  - destruct (lines_mapQ2 (fun c c' => Rv c c' /\ c <> []) sv_min (np_red_num RMin) rows m) as (v & v' & E & -> & Hv); auto.
+    { intros x x' [Hx Hne]. now apply min_refines. }
+    unfold res_all. rewrite mapM_map. rewrite (mapM_ext _ sv_min) by reflexivity. rewrite E.
+    destruct keep; cbn; [now apply Rv_single_nz | now apply Rv_map_nz].
+Qed.
+
+(* ================================================================== Part 17: SparseArray __getitem__ / __setitem__ with (row, column) indices *)
+(* selecting rows: a[m] for m an int list / mask / slice *)
+Lemma nth_rows_refines rows M sel : Forall2 Rv rows M -> Forall (fun i => (i < length rows)%nat) sel ->
+  exists sr sr', nth_rows rows sel = Ok sr /\ np_take M sel = Ok sr' /\ Forall2 Rv sr sr'.
+Proof.
+  intros H Hs. unfold np_take. induction Hs as [|i sel Hi Hs IH]; cbn; [do 2 eexists; repeat split; constructor|].
+  destruct IH as (sr & sr' & E & E' & R).
+  assert (Hi' : (i < length M)%nat) by (now rewrite <- (Forall2_length _ _ _ H)).
+  destruct (nth_error rows i) as [r|] eqn:Er; [|apply nth_error_None in Er; lia].
+  rewrite E. cbn [bind]. rewrite (np_get1_nth M i []) by exact Hi'. rewrite E'.
+  do 2 eexists; repeat split; eauto. constructor; auto.
+  clear -H Er. revert i Er. induction H; intros [|i] Er; cbn in *; try discriminate.
+  - inversion Er; subst. assumption.
+  - eauto.
+Qed.
+(* a[m, n] with m selecting rows and n selecting columns: the block of values (outer indexing) *)
+Theorem get_block_refines rows M sel idx : Forall2 Rv rows M -> Forall (fun i => (i < length rows)%nat) sel ->
+  Forall (fun r => Forall (fun j => (j < length r)%nat) idx) rows ->
+  exists sr sr' B', nth_rows rows sel = Ok sr /\ np_take M sel = Ok sr' /\ mapM (fun r => np_take r idx) sr' = Ok B' /\
+                    Forall2 (Forall2 Qeq) (map (fun r => map (getc r) idx) sr) B'.
+Proof.
+  intros H Hs Hi. destruct (nth_rows_refines rows M sel H Hs) as (sr & sr' & E & E' & R).
+  assert (Hsr : Forall (fun r => Forall (fun j => (j < length r)%nat) idx) sr).
+  { clear -E Hi. revert sr E. induction sel as [|i sel IH]; intros sr E; cbn in E; [inversion E; constructor|].
+    destruct (nth_error rows i) eqn:Er; [|discriminate]. destruct (nth_rows rows sel) eqn:E2; cbn in E; inversion E; subst.
+    constructor; auto. eapply Forall_forall in Hi; [exact Hi|]. eapply nth_error_In; eauto. }
+  assert (B : exists B', mapM (fun r => np_take r idx) sr' = Ok B' /\ Forall2 (Forall2 Qeq) (map (fun r => map (getc r) idx) sr) B').
+  { clear E E'. induction R as [|r r' sr sr' Hr R IH]; cbn; [eexists; split; constructor|].
+    inversion Hsr; subst. destruct (IH H3) as (B' & EB & RB).
+    destruct (get_idx_refines r r' idx Hr H2) as (v & -> & Hv). rewrite EB. eexists; split; eauto. }
+  destruct B as (B' & EB & RB). exists sr, sr', B'. auto.
+Qed.
+(* a[m, j]: one column of the selected rows;  a[i, n]: selected columns of one row;  a[i, j]: one element *)
+Theorem get_column_refines rows M sel j : Forall2 Rv rows M -> Forall (fun i => (i < length rows)%nat) sel ->
+  Forall (fun r => (j < length r)%nat) rows ->
+  exists sr sr' v', nth_rows rows sel = Ok sr /\ np_take M sel = Ok sr' /\ mapM (fun r => np_get1 r j) sr' = Ok v' /\
+                    Forall2 Qeq (map (fun r => getc r j) sr) v'.
+Proof.
+  intros H Hs Hj. destruct (nth_rows_refines rows M sel H Hs) as (sr & sr' & E & E' & R).
+  assert (Hsr : Forall (fun r => (j < length r)%nat) sr).
+  { clear -E Hj. revert sr E. induction sel as [|i sel IH]; intros sr E; cbn in E; [inversion E; constructor|].
+    destruct (nth_error rows i) eqn:Er; [|discriminate]. destruct (nth_rows rows sel) eqn:E2; cbn in E; inversion E; subst.
+    constructor; auto. eapply Forall_forall in Hj; [exact Hj|]. eapply nth_error_In; eauto. }
+  assert (B : exists v', mapM (fun r => np_get1 r j) sr' = Ok v' /\ Forall2 Qeq (map (fun r => getc r j) sr) v').
+  { clear E E'. induction R as [|r r' sr sr' Hr R IH]; cbn; [eexists; split; constructor|].
+    inversion Hsr; subst. destruct (IH H3) as (v' & EB & RB).
+    destruct (get_int_refines r r' j Hr H2) as (q & -> & Hq). rewrite EB. eexists; split; eauto. }
+  destruct B as (v' & EB & RB). exists sr, sr', v'. auto.
+Qed.
+Theorem get_element_refines rows M i j : Forall2 Rv rows M -> (i < length rows)%nat -> (j < length (nth i rows []))%nat ->
+  exists r' q, np_get1 M i = Ok r' /\ np_get1 r' j = Ok q /\ getc (nth i rows []) j == q.
+Proof.
+  intros H Hi Hj.
+  assert (R : Rv (nth i rows []) (nth i M [])).
+  { clear Hj. revert i Hi. induction H; intros [|i] Hi; cbn in *; try lia; auto. apply IHForall2. lia. }
+  exists (nth i M []). destruct (get_int_refines _ _ j R Hj) as (q & E & Hq). exists q.
+  split; [apply np_get1_nth; now rewrite <- (Forall2_length _ _ _ H)|]. split; auto.
+Qed.
+(* which of these forms SparseArray.__getitem__ takes for the (row, column) kinds *)
+Definition is_listlike (ix : index) : bool := match ix with IList _ | IMask _ | ISlice _ _ _ => true | _ => false end.
+Lemma arrF_get_forms rows m n :
+  (is_int m = true -> is_int n = true -> (int_of m < length rows)%nat ->
+     arrF_get rows (XPair m n) = GScalF (getc (nth (int_of m) rows []) (int_of n))) /\
+  (is_int m = true -> is_listlike n = true -> (int_of m < length rows)%nat ->
+     arrF_get rows (XPair m n) = GDenseF (map (getc (nth (int_of m) rows [])) (index_list (vsize rows) n))) /\
+  (is_listlike m = true -> is_int n = true -> forall sr, nth_rows rows (index_list (length rows) m) = Ok sr ->
+     arrF_get rows (XPair m n) = GDenseF (map (fun r => getc r (int_of n)) sr)) /\
+  (is_slice m = true -> is_listlike n = true -> forall sr, nth_rows rows (index_list (length rows) m) = Ok sr ->
+     arrF_get rows (XPair m n) = GDense2F (map (fun r => map (getc r) (index_list (length r) n)) sr)).
+Proof.
+  repeat split.
+  - intros Hm Hn Hi. apply Nat.ltb_lt in Hi. destruct m, n; try discriminate; cbn in *; now rewrite Hi.
+  - intros Hm Hn Hi. apply Nat.ltb_lt in Hi. destruct m, n; try discriminate; cbn in *; now rewrite Hi.
+  - intros Hm Hn sr E. destruct m, n; try discriminate; cbn in *; now rewrite E.
+  - intros Hm Hn sr E. destruct m, n; try discriminate; cbn in *; now rewrite E.
+Qed.
+
+(* row[n] = q through SparseVector.__setitem__, for every index kind *)
+Lemma vecF_set_scalar_refines c v n q isb : Rv c v -> valid_index (length c) n ->
+  exists r r', vecF_set c n (PS q isb) = Ok r /\ np_setrow v n q = Ok r' /\ Rv r r' /\ length r = length c /\
+               forall j, ~ In j (index_list (length c) n) -> nth_error r j = nth_error c j.
+Proof.
+  intros Hcv Hv. pose proof (Rv_length _ _ Hcv) as L.
+  destruct (index_list_np (length c) n Hv) as [NI IR].
+  unfold vecF_set, np_setrow. cbn [sval_of bind].
+  assert (G : forall idx, np_index_list (length v) n = Ok idx -> idx = index_list (length c) n ->
+              exists r r', set_all c idx q = Ok r /\ (do idx0 <- np_index_list (length v) n; np_setitems v idx0 [q]) = Ok r' /\
+                           Rv r r' /\ length r = length c /\ forall j, ~ In j idx -> nth_error r j = nth_error c j).
+  { intros idx E ->. rewrite E. cbn [bind]. rewrite np_setitems_scalar by (now rewrite <- L).
+    destruct (set_all_refines _ c v q q Hcv ltac:(reflexivity) IR) as (r & r' & E0 & P & R & Lr & F). eauto 10. }
+  rewrite L in NI.
+  destruct n as [k|k|l|mk|a b cc|]; cbn [index_list] in *.
+  - destruct (set_int_refines c v k q q Hcv ltac:(reflexivity) Hv) as (r & E & R & Lr & F).
+    rewrite L in Hv. apply Nat.ltb_lt in Hv. rewrite Hv. exists r, (upd v k q). repeat split; auto.
+    intros j Hj. apply F. intros ->. apply Hj. now left.
+  - destruct (set_int_refines c v k q q Hcv ltac:(reflexivity) Hv) as (r & E & R & Lr & F).
+    rewrite L in Hv. apply Nat.ltb_lt in Hv. rewrite Hv. exists r, (upd v k q). repeat split; auto.
+    intros j Hj. apply F. intros ->. apply Hj. now left.
+  - cbn [set_idx]. apply G; auto.
+  - cbn [set_idx]. apply G; auto.
+  - cbn [set_idx]. apply G; auto.
+  - destruct (set_open_scalar_refines c v q q Hcv ltac:(reflexivity)) as (r & E0 & R).
+    rewrite E0, NI. cbn [bind].
+    rewrite np_setitems_scalar by (apply Forall_forall; intros j Hj; apply in_seq in Hj; lia).
+    rewrite seq_length. pose proof (np_put_seq_repeat q v []) as P. cbn in P. rewrite P.
+    assert (M : repeat q (length v) = map (fun _ => q) v) by (clear; induction v; cbn; congruence).
+    rewrite M. exists r, (map (fun _ => q) v). repeat split; auto.
+    + rewrite (Rv_length _ _ R), map_length. congruence.
+    + intros j Hj. destruct (Nat.lt_ge_cases j (length c)) as [Lt|Ge].
+      * exfalso. apply Hj. apply in_seq. lia.
+      * assert (length r = length c) by (rewrite (Rv_length _ _ R), map_length; congruence).
+        rewrite (proj2 (nth_error_None r j)) by lia. symmetry. apply nth_error_None. lia.
+Qed.
+(* the row loop of SparseArray.__setitem__ *)
+Lemma upd_rows_refines (f : cells -> cells * option err) (g : list Q -> res (list Q)) (P : cells -> Prop) :
+  (forall c c', Rv c c' -> P c -> exists r r', f c = (r, None) /\ g c' = Ok r' /\ Rv r r' /\ P r) ->
+  forall sel rows M, Forall2 Rv rows M -> Forall P rows -> Forall (fun i => (i < length rows)%nat) sel ->
+  exists R R', upd_rows f rows sel = (R, None) /\ np_upd_rows g M sel = Ok R' /\ Forall2 Rv R R' /\ Forall P R /\
+               length R = length rows /\ forall k, ~ In k sel -> nth_error R k = nth_error rows k.
+Proof.
+  intros Hf. induction sel as [|i sel IH]; intros rows M H HP Hs.
+  - exists rows, M. cbn. repeat split; auto.
+  - inversion Hs as [|? ? Hi Hs']; subst.
+    assert (Hi' : (i < length M)%nat) by (now rewrite <- (Forall2_length _ _ _ H)).
+    destruct (nth_error rows i) as [c|] eqn:Ec; [|apply nth_error_None in Ec; lia].
+    destruct (nth_error M i) as [c'|] eqn:Ec'; [|apply nth_error_None in Ec'; lia].
+    assert (Rcc : Rv c c').
+    { clear -H Ec Ec'. revert i Ec Ec'. induction H; intros [|i] Ec Ec'; cbn in *; try discriminate.
+      - inversion Ec; inversion Ec'; subst; auto. - eauto. }
+    destruct (Hf c c' Rcc (Forall_nth_error _ _ _ _ HP Ec)) as (r & r' & Ef & Eg & Rr & Pr).
+    cbn [upd_rows np_upd_rows]. rewrite Ec, Ec', Ef, Eg. cbn [bind].
+    assert (H2 : Forall2 Rv (upd rows i r) (upd M i r')).
+    { clear -H Rr. revert i. induction H; intros [|i]; cbn; constructor; auto. }
+    destruct (IH (upd rows i r) (upd M i r') H2 (Forall_upd _ _ _ _ HP Pr)) as (R & R' & E1 & E2 & RR & PR & LR & FR).
+    { rewrite upd_length. exact Hs'. }
+    exists R, R'. repeat split; auto.
+    + now rewrite LR, upd_length.
+    + intros k Hk. rewrite FR by (intros K; apply Hk; now right). apply nth_error_upd_other. intros ->. apply Hk. now left.
+Qed.
+(* SparseArray.__setitem__ with a scalar takes the row-loop form for every (row, column) combination that addresses a block *)
+Lemma arrF_set_scalar_form rows m n q isb : is_int m || is_slice m || is_slice n = true ->
+  arrF_set false rows false (XPair m n) (PS q isb) =
+  upd_rows (fun c => keep_on_err c (vecF_set c n (PS q isb))) rows (index_list (length rows) m).
+Proof. intros H. destruct m, n; try discriminate H; reflexivity. Qed.
+Theorem array_set_scalar_refines rows M m n q isb : Forall2 Rv rows M ->
+  is_int m || is_slice m || is_slice n = true ->
+  valid_index (length rows) m -> Forall (fun c => valid_index (length c) n) rows ->
+  exists R R', arrF_set false rows false (XPair m n) (PS q isb) = (R, None) /\ np_set2_scalar M m n q = Ok R' /\
+               Forall2 Rv R R' /\ length R = length rows /\
+               forall k, ~ In k (index_list (length rows) m) -> nth_error R k = nth_error rows k.
+Proof.
+  intros H Hk Hm Hn. rewrite arrF_set_scalar_form by exact Hk.
+  destruct (index_list_np (length rows) m Hm) as [NI IR].
+  unfold np_set2_scalar. rewrite <- (Forall2_length _ _ _ H), NI. cbn [bind].
+  destruct (upd_rows_refines (fun c => keep_on_err c (vecF_set c n (PS q isb))) (fun r => np_setrow r n q)
+              (fun c => valid_index (length c) n)) with (sel := index_list (length rows) m) (rows := rows) (M := M)
+    as (R & R' & E1 & E2 & RR & _ & LR & FR); auto.
+  - intros c c' Hc Pc. destruct (vecF_set_scalar_refines c c' n q isb Hc Pc) as (r & r' & E & E' & Rr & Lr & _).
+    exists r, r'. rewrite E. cbn. repeat split; auto. now rewrite Lr.
+  - exists R, R'. repeat split; auto.
 Qed.
